@@ -124,9 +124,10 @@ def name_info(attrs, cont, default=None):
     return None, name, aname
 
 
-def check(events):
+def check(events, imports=None):
+    """imports: {src: [(type name, abstract?)]} - what '<import src=...>' resources define"""
     try:
-        _check(events)
+        _check(events, imports)
     except Reject:
         return 'reject'
     except Any:
@@ -134,7 +135,7 @@ def check(events):
     return 'accept'
 
 
-def _check(events):
+def _check(events, imports=None):
     elems = []
     types = {}          # name -> Container (concrete names only once decided)
     tnames = []         # list of (name, Container) with possibly symbolic names
@@ -283,7 +284,14 @@ def _check(events):
                 rec['pending_default_key'] = attrs.get('key')
                 rec['pending_has_key'] = 'key' in attrs
         elif name == 'import':
-            raise Any()
+            src = attrs.get('src')
+            if imports is None or not isinstance(src, str) or src not in imports or 'package' in attrs:
+                raise Any()
+            # the types of the imported schema are defined here, under the same rule of unique names
+            for tn, abstract in imports[src]:
+                if find_type(tn) is not None:
+                    raise Reject()
+                tnames.append((tn, Container(tn, 'basic-key', abstract=abstract)))
     if elems:
         raise Any()
 
